@@ -22,6 +22,8 @@
 
 pub(crate) mod handler;
 pub(crate) mod rate_limiter;
+#[cfg(libp2p_verif)]
+mod verif_c47;
 use std::{
     collections::{HashMap, VecDeque, hash_map},
     num::NonZeroU32,
